@@ -113,7 +113,12 @@ class HashFileDB(ObjectDB):
                 if verify:
                     self.check(o, check_hash=True)
                 self.protect(cache_path)
-            except (ObjectFormatError, FileNotFoundError):
+            except ObjectFormatError as exc:
+                # the copied object was rejected (and removed) by verification:
+                # it did not arrive, so report it like any other failed upload
+                if on_error is not None:
+                    on_error(o, exc)
+            except FileNotFoundError:
                 pass
 
         self.state.save_many(
